@@ -330,6 +330,11 @@ func (o *orC16) onZK(e *ZKEvent) {
 	case e.Path == "/test/active_nodes" && (e.Op == "set" || e.Op == "create"):
 		for _, h := range parseStrList(e.Data) {
 			if m.isCascade(h) {
+				// a registration that appeared while this pass was under way may not have been seen by it
+				if it := m.iters[e.Inc]; it != nil && it.open && (&orC04{baseOracle: o.baseOracle}).cascadeSince(h) >= it.startT {
+					m.probe("c16_member_became_cascade_during_pass")
+					continue
+				}
 				m.violate("C16", "listed_active", "cascade-replica-in-active-list", fmt.Sprintf("%s published active list %s containing cascade replica %s", e.Inc, e.Data, h))
 			}
 		}
